@@ -41,6 +41,7 @@ DISCRIMINATING = [
     ({"dependencies": {"a": "b"}}, [{"a": 1}, {"a": 1, "b": 2}]),
     ({"id": "http://ex.test/d/", "properties": {"p": {"$ref": "t.json"}}}, [{"p": 1}, {"p": "s"}]),
     ({"$id": "http://ex.test/d/", "properties": {"p": {"$ref": "t.json"}}}, [{"p": 1}, {"p": "s"}]),
+    (True, [1, "a"]), (False, [1, "a"]),        # schemas in drafts 6/7, not schemas at all in drafts 3/4
 ]
 
 
@@ -194,6 +195,8 @@ class C20(Prop):
     def family(self, case):
         schema, xs = DISCRIMINATING[case["pair"] % len(DISCRIMINATING)]
         schema = copy.deepcopy(schema)
+        if isinstance(schema, bool):
+            return schema, xs               # nowhere to say which draft is meant
         sp = case["spelling"]
         d = case["draft"]
         if sp == "hash":
@@ -218,6 +221,11 @@ class C20(Prop):
 
             def direct(c=sel):
                 c.check_schema(schema)
+                if isinstance(schema, bool):
+                    err = impl.exceptions.best_match(c(schema).iter_errors(copy.deepcopy(x)))
+                    if err is not None:
+                        raise err
+                    return
                 r = impl.validators.RefResolver.from_schema(copy.deepcopy(schema), id_of=c.ID_OF, store=copy.deepcopy(store))
                 err = impl.exceptions.best_match(c(copy.deepcopy(schema), resolver=r).iter_errors(copy.deepcopy(x)))
                 if err is not None:
@@ -228,6 +236,9 @@ class C20(Prop):
                 with warnings.catch_warnings():
                     warnings.simplefilter("ignore")
                     c = explicit or impl.validators.validator_for(schema)
+                    if isinstance(schema, bool):
+                        impl.jsonschema.validate(copy.deepcopy(x), schema, **kw)
+                        return
                     r = impl.validators.RefResolver.from_schema(copy.deepcopy(schema), id_of=c.ID_OF, store=copy.deepcopy(store))
                     impl.jsonschema.validate(copy.deepcopy(x), copy.deepcopy(schema), resolver=r, **kw)
             a, b = outcome(direct), outcome(via_validate)
